@@ -439,7 +439,7 @@ static int run_case(uint64_t case_seed, int nops, const char *path)
 	}
 	AFTER("xmp_start_player", 0);
 	xmp_get_frame_info(opaque, &fi);
-	total_time = fi.total_time > 0 ? fi.total_time : 1000;
+	total_time = fi.total_time > 0 ? (fi.total_time < 100000000 ? fi.total_time : 100000000) : 1000;
 
 	for (op = 0; op < nops; op++) {
 		int k = vrng_below(100);
